@@ -6,6 +6,10 @@ import os
 VERIF = os.path.dirname(os.path.dirname(os.path.abspath(__file__)))
 
 CLAIMED = {
+    "C04": dict(level="exploration", design="3/C04",
+                technique="deterministic simulation: seeded assignment histories at 4 levels on text bodies in generated prior states with checkpoint/restart scheduling; executable text-translation model + structure counts (public API and independent parse of saved bytes) + persistence across restarts",
+                text="Seeded search over text-assignment histories (frame, cell, paragraph, run; strings over XML Char plus C0 controls) on text boxes, placeholders, table cells and notes in prior states produced by other text operations, with saves and restarts in between; read-back is compared with an executable model of the documented translations, paragraph/break counts are checked through the API and in the saved XML, and every recorded reading must persist across later operations and restarts.",
+                note="trusted: the model in sim/props/c04.py (regexes for the documented escapes), zipfile/lxml for the saved-XML count; strings limited to XML Char + C0"),
     "C16": dict(level="fault_enumeration", design="3/C16",
                 technique="deterministic simulation with fault injection into stored state: documented irregularities injected at every applicable location of every corpus deck (singles enumerated, pairs seeded), 3 storage forms; fault-aware independent OPC reader + exact exception-class table as oracle",
                 text="Every single stored-state fault location of every corpus deck is enumerated (thorough: all of them x 3 storage forms; quick: seeded stratified slice + pinned cases) and pairs are sampled by seed; the loaded package must equal what an independent reader finds still reachable in the faulted bytes, the re-saved package must be closed, and non-packages must be refused with exactly the promised exception class.",
